@@ -156,6 +156,20 @@ func classes(c Case, res *kshist.Result) []string {
 
 func testName(fixture string) string { return "TestHistory/" + fixture }
 
+// counts are the histories per shard (quick, thorough). The directory back end syncs every write
+// to disk (about ten times the cost of the other fixtures) and shares all code above the back end
+// with the in-memory fixture, so it gets fewer histories and the in-memory one more.
+// Quick: 4 shards x 540 = 2160 histories; thorough: 16 x 6500.
+func counts(fixture string) (int, int) {
+	switch fixture {
+	case "v2/mem":
+		return 200, 2400
+	case "v2/dir":
+		return 40, 500
+	}
+	return 100, 1200
+}
+
 // openSigs are the signatures of the open known findings of this property (read-only copy of what
 // hx loads, so that the minimiser can ask without counting exclusions).
 var openSigs = func() map[string]bool {
@@ -268,8 +282,9 @@ func TestHistory(t *testing.T) {
 		t.Run(strings.NewReplacer("/", "-", "=", "-").Replace(fixture), func(t *testing.T) {
 			name := testName(fixture)
 			R.Rule(name, "operation lists (1-25) over {generate/rotate, read current, read all, list, list rotated, destroy current, destroy rotated by listed index, reset, reopen} x 6 key kinds x 1-3 client ids, weighted towards one focus key; model = generations with destroyed flags; exact comparison through a cache-less fresh handle after every write and through the handle under test when it has no cache or no write happened since reset/reopen, cache clause (nothing foreign, never loses a surviving key offered earlier) otherwise; probes protected with every new key must stay readable through the all-keys read; non-trivial = a rotation followed by a read-all of that key, or a destruction followed by any read operation")
-			hx.Checks(30, 1200)
-			flag.Set("rapid.shrinktime", "5s") // the operation list is minimised by minimize(); rapid only needs to try shorter draws
+			q, th := counts(fixture)
+			hx.Checks(q, th)
+			flag.Set("rapid.shrinktime", "1s") // the operation list is minimised by minimize(); rapid only needs to try shorter draws
 			rapid.Check(t, func(rt *rapid.T) {
 				c := genCase(rt, fixture)
 				vs, res := Check(c)
